@@ -57,7 +57,7 @@ def nan_rows(ref):
 def effective_ref(ref, use_params):
     eff = ref.clone()
     if use_params and eff.trainables:
-        eff.write_trainables([t["vals"] for t in eff.trainables])
+        eff.write_trainables([t["vals"] for t in eff.trainables], skip_absent=True)
     eff.trainables = []
     return eff
 
